@@ -107,13 +107,13 @@ void followUp(XalanHandle h, const char* after)
 const char* excluded(const std::string& xsl, const std::string& xml)
 {
     if (filtersOff()) return 0;
-    if (hasNonAsciiEncodingAttribute(xsl)) return "excluded_by_filter:F-C03-icu-converter-name";
+    if (filterActive("F-C03-icu-converter-name") && (hasNonAsciiEncodingAttribute(xsl))) return "excluded_by_filter:F-C03-icu-converter-name";
     // F-C03-exslt-padding-nan: str:padding() converts its length argument to an unsigned integer without a range check
-    if (contains(xsl, "padding(")) return "excluded_by_filter:F-C03-exslt-padding-nan";
+    if (filterActive("F-C03-exslt-padding-nan") && (contains(xsl, "padding("))) return "excluded_by_filter:F-C03-exslt-padding-nan";
     // F-C03-assert-nametest-empty-local (Debug-only assertion): xsl:strip-space / preserve-space elements="p:"
-    if (hasNameTestEndingInColon(xsl)) return "excluded_by_filter:F-C03-assert-nametest-empty-local";
+    if (filterActive("F-C03-assert-nametest-empty-local") && (hasNameTestEndingInColon(xsl))) return "excluded_by_filter:F-C03-assert-nametest-empty-local";
     // F-C03-assert-indtd (Debug-only assertion): element content reported while the internal DTD subset is still open
-    if (hasUnclosedInternalSubset(xml)) return "excluded_by_filter:F-C03-assert-indtd";
+    if (filterActive("F-C03-assert-indtd") && (hasUnclosedInternalSubset(xml))) return "excluded_by_filter:F-C03-assert-indtd";
     return 0;
 }
 }  // namespace
